@@ -7,6 +7,8 @@ import (
 	"encoding/json"
 	"io"
 	"os"
+	"strconv"
+	"time"
 )
 
 func main() {
@@ -18,4 +20,8 @@ func main() {
 	}
 	f.Write(append(rec, '\n'))
 	f.Close()
+	// a player keeps running after it has started: ARGDUMP_SLEEP_MS says for how long
+	if ms, err := strconv.Atoi(os.Getenv("ARGDUMP_SLEEP_MS")); err == nil && ms > 0 {
+		time.Sleep(time.Duration(ms) * time.Millisecond)
+	}
 }
